@@ -7,7 +7,7 @@ from typing import Dict, List, Optional, Set, Tuple
 
 from ..astutil import arg_of, call_name, calls, enclosing_loops, guards, kwarg, last_attr, stmt_key, txt, walk_local
 from ..cfg import CFG
-from ..flow import bound_from
+from ..flow import bound_from, fact_texts, inline_reaching, nnf_literals, path_facts, resolved_facts
 from ..index import AnalysisError, ClassInfo, dotted
 from ..kernel import OutsideFragment, affine, decide, parse, rename
 from ..report import Ctx
@@ -112,8 +112,13 @@ def r06_2(ctx: Ctx) -> None:
                "the getter converts the 1-based number to the list index by subtracting one", form=form)
         n = ctx.fn(REC, f"Record.{number}")
         param = n.args.args[1].arg
-        text = txt(n)
-        ok = f"self.{num}.get({param})" in text and "is None" in text and any(isinstance(x, ast.Raise) for x in walk_local(n))
+        ncfg = CFG(n)
+        absent = {(f"self.{num}.get({param}) is None", True), (f"{param} in self.{num}", False)}
+        refused = any(nnf_literals(resolved_facts(ncfg, x)) & absent for x in walk_local(n) if isinstance(x, ast.Raise))
+        rets = [x for x in walk_local(n) if isinstance(x, ast.Return) and x.value is not None]
+        from_table = bool(rets) and all(txt(inline_reaching(ncfg, x, x.value)) in (f"self.{num}.get({param})", f"self.{num}[{param}]")
+                                        for x in rets)
+        ok = refused and from_table
         ctx.ob("R06.2", REC, n, f"Record.{number}", "lookup or raise", ok,
                "the number of a feature comes from the numbering table and an unknown feature is refused", form="")
     _ = record
@@ -210,7 +215,7 @@ def r06_1(ctx: Ctx) -> None:
         if ok and guard:
             for c in calls(func):
                 if txt(c.func) in ("self.clear_regions", "self.create_regions"):
-                    ok = ok and any(txt(t) == guard and pol for t, pol in guards(c, stop=func))
+                    ok = ok and guard in fact_texts(cfg, c)
         ctx.ob("R06.1", REC, func, qual, "call chain", ok,
                "clearing a family empties its list, then clears what depends on it and re-creates the regions "
                "(only if regions existed)", form=" -> ".join(order))
@@ -225,6 +230,34 @@ def r06_1(ctx: Ctx) -> None:
     ok = bool(setter) and "assert self.is_contained_by(parent)" in txt(setter[-1])
     ctx.ob("R06.1", COLL, setter[-1] if setter else 0, "CDSCollection.parent", "parent contains child", ok,
            "a parent link can only be set to a collection containing the child", form="")
+
+
+def _renumbers(func: ast.AST, lst: str, table: str) -> bool:
+    """ every element from the insertion index to the end gets its list position + 1:
+        `for i in range(index, len(L)): T[L[i]] = i + 1`  or  `for n, x in enumerate(L[index:], index + 1): T[x] = n` """
+    for loop in [n for n in walk_local(func) if isinstance(n, ast.For)]:
+        it = loop.iter
+        stores = [s for s in loop.body if isinstance(s, ast.Assign) and isinstance(s.targets[0], ast.Subscript)
+                  and txt(s.targets[0].value) == table]
+        if len(stores) != 1 or len(loop.body) != 1:
+            continue
+        store = stores[0]
+        if isinstance(it, ast.Call) and call_name(it) == "range" and len(it.args) == 2 and txt(it.args[1]) == f"len({lst})" \
+                and isinstance(loop.target, ast.Name):
+            i = loop.target.id
+            start = txt(it.args[0])
+            if txt(store.targets[0].slice) == f"{lst}[{i}]" and txt(store.value) in (f"{i} + 1", f"1 + {i}"):
+                return bool(start)
+        if isinstance(it, ast.Call) and call_name(it) == "enumerate" and it.args and isinstance(loop.target, ast.Tuple) \
+                and len(loop.target.elts) == 2 and isinstance(it.args[0], ast.Subscript) and txt(it.args[0].value) == lst \
+                and isinstance(it.args[0].slice, ast.Slice) and it.args[0].slice.upper is None and it.args[0].slice.lower is not None:
+            start = it.args[1] if len(it.args) > 1 else kwarg(it, "start")
+            lower = txt(it.args[0].slice.lower)
+            number, elem = (txt(e) for e in loop.target.elts)
+            if start is not None and txt(start) in (f"{lower} + 1", f"1 + {lower}") \
+                    and txt(store.targets[0].slice) == elem and txt(store.value) == number:
+                return True
+    return False
 
 
 def r06_3(ctx: Ctx) -> None:
@@ -262,68 +295,73 @@ def r06_3(ctx: Ctx) -> None:
            "the record is modified only after every existing region has passed the overlap test",
            form=f"{len(mutations)} mutating statements")
     text = txt(func)
-    ok = "for i in range(index, len(self._regions)):" in text and "self._region_numbering[self._regions[i]] = i + 1" in text
+    ok = _renumbers(func, "self._regions", "self._region_numbering")
     ctx.ob("R06.3", REC, func, qual, "renumber", ok, "regions from the insertion index on are renumbered i + 1", form="")
     ok = "for cds in self.get_cds_features_within_location(region.location):" in text and "region.add_cds(cds)" in text \
         and "cds.region = region" in text
     ctx.ob("R06.3", REC, func, qual, "link genes", ok, "genes inside the region are linked both ways", form="")
 
 
+def _ancestors(node: ast.AST):
+    cur = getattr(node, "_parent", None)
+    while cur is not None:
+        yield cur
+        cur = getattr(cur, "_parent", None)
+
+
 def r06_4_5(ctx: Ctx) -> None:
     qual = "Record.create_regions"
-    func = ctx.fn(REC, qual)
+    func = ctx.fn(REC, qual, inline=True)
+    cfg = CFG(func)
     # R06.5: the section split test
     appends = [c for c in calls(func) if txt(c.func) == "sections.append" and enclosing_loops(c, stop=func)]
     if not appends:
         raise AnalysisError("create_regions: section split not found")
     app = appends[0]
-    gs = [(t, pol) for t, pol in guards(app, stop=func)]
     loop = enclosing_loops(app, stop=func)[0]
     var = txt(loop.target)
-    if not gs:
-        ctx.cannot("R06.5", REC, app, qual, "split test", "the section split is not guarded by a test")
-    else:
-        test, pol = gs[0]
-        exprs: List[Tuple[ast.AST, bool]] = []
-        if isinstance(test, ast.Name):
-            for val in bound_from(func, test.id):
-                exprs.append((val, pol))
-        else:
-            exprs.append((test, pol))
-        if not exprs:
-            ctx.cannot("R06.5", REC, app, qual, "split test", f"cannot resolve {txt(test)}")
-        for index, (expr, polarity) in enumerate(exprs):
-            negated = isinstance(expr, ast.UnaryOp) and isinstance(expr.op, ast.Not)
-            inner = expr.operand if negated else expr
-            effective_not = negated == polarity   # True when the arm runs on "not overlap"
-            if isinstance(inner, ast.Call) and (last_attr(inner) == "overlaps_with" or call_name(inner) == "locations_overlap"):
-                operands = ([inner.func.value] if last_attr(inner) == "overlaps_with" else []) + list(inner.args)  # type: ignore
-                names = sorted(txt(o).replace(".location", "") for o in operands)
-                ok = effective_not and names == sorted([var, "location"])
-                ctx.ob("R06.5", REC, expr, qual, f"split test#{index}", ok,
-                       "a new section starts exactly when the next area does not overlap the running section",
-                       form=txt(expr))
-                continue
-            mapping = {f"{var}.location.start": "a_s", f"{var}.location.end": "a_e", f"{var}.start": "a_s", f"{var}.end": "a_e",
-                       "location.start": "l_s", "location.end": "l_e"}
-            try:
-                spec = parse("a_s >= l_e") if polarity else parse("a_s < l_e")
-                pre = parse("l_s <= a_s and l_s < l_e and a_s < a_e")
-                ok, cex, n = decide(rename(expr, mapping), spec, pre=pre)
-                ctx.ob("R06.5", REC, expr, qual, f"split test#{index}", ok,
-                       "a comparison used instead of the overlap predicate must be equivalent to 'no shared base' for "
-                       "start-sorted half-open intervals (next.start >= running.end)",
-                       detail=f"counterexample {cex}" if cex else f"{n} orderings", form=txt(rename(expr, mapping)))
-            except OutsideFragment as err:
-                ctx.cannot("R06.5", REC, expr, qual, f"split test#{index}", str(err))
-    # the running section absorbs an overlapping area by connecting locations
     merges = [c for c in calls(loop) if call_name(c) == "connect_locations"]
-    ok = len(merges) == 1 and sorted(txt(e) for e in merges[0].args[0].elts) == sorted([f"{var}.location", "location"]) \
+    running = ""
+    for merge in merges:
+        par = getattr(merge, "_parent", None)
+        if isinstance(par, (ast.Assign, ast.AnnAssign)):
+            running = txt(par.targets[0] if isinstance(par, ast.Assign) else par.target)
+    if not running:
+        raise AnalysisError("create_regions: the running section location was not found")
+    facts = [(e, t) for e, t in path_facts(cfg, app) if any(a is loop for a in _ancestors(e))]
+    if not facts:
+        ctx.cannot("R06.5", REC, app, qual, "split test", "the section split is not guarded by a test")
+    for index, (expr, truth) in enumerate(facts):
+        resolved = inline_reaching(cfg, expr, expr, keep={running, var})
+        if isinstance(resolved, ast.Call) and (last_attr(resolved) == "overlaps_with" or call_name(resolved) == "locations_overlap"):
+            operands = ([resolved.func.value] if last_attr(resolved) == "overlaps_with" else []) + list(resolved.args)  # type: ignore
+            names = sorted(txt(o).replace(".location", "") for o in operands)
+            ok = (not truth) and names == sorted([var, running])
+            ctx.ob("R06.5", REC, expr, qual, f"split test#{index}", ok,
+                   "a new section starts exactly when the next area does not overlap the running section",
+                   form=("" if truth else "not ") + txt(resolved))
+            continue
+        mapping = {f"{var}.location.start": "a_s", f"{var}.location.end": "a_e", f"{var}.start": "a_s", f"{var}.end": "a_e",
+                   f"{running}.start": "l_s", f"{running}.end": "l_e"}
+        try:
+            spec = parse("a_s >= l_e") if truth else parse("a_s < l_e")
+            pre = parse("l_s <= a_s and l_s < l_e and a_s < a_e")
+            ok, cex, n = decide(rename(resolved, mapping), spec, pre=pre)
+            ctx.ob("R06.5", REC, expr, qual, f"split test#{index}", ok,
+                   "a comparison used instead of the overlap predicate must be equivalent to 'no shared base' for "
+                   "start-sorted half-open intervals (next.start >= running.end)",
+                   detail=f"counterexample {cex}" if cex else f"{n} orderings", form=txt(rename(resolved, mapping)))
+        except OutsideFragment as err:
+            ctx.cannot("R06.5", REC, expr, qual, f"split test#{index}", str(err))
+    # the running section absorbs an overlapping area by connecting locations
+    ok = len(merges) == 1 and sorted(txt(e) for e in merges[0].args[0].elts) == sorted([f"{var}.location", running]) \
         and kwarg(merges[0], "wrap_point") is not None
     ctx.ob("R06.5", REC, merges[0] if merges else loop, qual, "section growth", ok,
            "an overlapping area extends the running section to the span covering both (with the wrap point)",
            form=txt(merges[0]) if merges else "")
-    ok = any(isinstance(s, ast.Expr) and txt(s.value) == "areas.sort()" for s in func.body)
+    swept = loop.iter.value if isinstance(loop.iter, ast.Subscript) else loop.iter
+    ok = any(isinstance(s, ast.Expr) and txt(s.value) == f"{txt(swept)}.sort()" and cfg.dominates(cfg.n(s), cfg.n(loop))
+             for s in func.body) or (isinstance(swept, ast.Call) and call_name(swept) == "sorted")
     ctx.ob("R06.5", REC, func, qual, "areas sorted", ok, "the sweep runs over the areas in sorted order", form="")
     wraps = [n for n in walk_local(func) if isinstance(n, ast.If) and isinstance(n.test, ast.Call) and call_name(n.test) == "locations_overlap"
              and "first_location" in txt(n.test) and "last_location" in txt(n.test)]
@@ -331,8 +369,7 @@ def r06_4_5(ctx: Ctx) -> None:
            "the first and last sections are merged when they overlap (across the origin)", form=txt(wraps[0].test) if wraps else "")
     # finalisation of the last section is unconditional
     finals = [c for c in calls(func) if txt(c.func) == "sections.append" and not enclosing_loops(c, stop=func)]
-    cfg = CFG(func)
-    ok = len(finals) == 1 and not guards(finals[0], stop=func)
+    ok = len(finals) == 1 and cfg.postdominates(cfg.n(finals[0]), cfg.n(loop))
     ctx.ob("R06.5", REC, finals[0] if finals else func, qual, "last section kept", ok,
            "the section still open at the end of the sweep is always recorded", form="")
     # R06.4 partition by class and one region per section
@@ -348,26 +385,44 @@ def r06_4_5(ctx: Ctx) -> None:
         form = txt(adds[0])
     ctx.ob("R06.4", REC, adds[0] if adds else func, qual, "one region per section", ok,
            "every section produces exactly one region, unconditionally", form=form)
-    splits = [n for n in walk_local(func) if isinstance(n, ast.If) and "isinstance(area, CandidateCluster)" in txt(n.test)]
     ok = False
-    if splits and adds:
-        node = splits[0]
+    form = ""
+    if adds and isinstance(adds[0].args[0], ast.Call) and len(adds[0].args[0].args) >= 2:
         region = adds[0].args[0]
-        cand_list = txt(region.args[0]) if isinstance(region, ast.Call) and region.args else ""  # type: ignore
-        sub_list = txt(region.args[1]) if isinstance(region, ast.Call) and len(region.args) > 1 else ""  # type: ignore
-        ok = any(txt(s) == f"{cand_list}.append(area)" for s in node.body) and \
-            any(isinstance(s, ast.Assert) and "isinstance(area, SubRegion)" in txt(s.test) for s in node.orelse) and \
-            any(txt(s) == f"{sub_list}.append(area)" for s in node.orelse)
-        # both lists are re-created per section
-        outer = enclosing_loops(node, stop=func)[-1]
-        ok = ok and any(isinstance(s, ast.Assign) and txt(s.targets[0]) == cand_list and txt(s.value) == "[]" for s in outer.body) \
-            and any(isinstance(s, ast.Assign) and txt(s.targets[0]) == sub_list and txt(s.value) == "[]" for s in outer.body)
-    ctx.ob("R06.4", REC, splits[0] if splits else func, qual, "partition by class", ok,
+        outer = enclosing_loops(adds[0], stop=func)[-1]
+        cand_list, sub_list = txt(region.args[0]), txt(region.args[1])
+        # the lists may be handed over by a tuple assignment (an inlined partition helper)
+        for st in walk_local(outer):
+            if isinstance(st, ast.Assign) and isinstance(st.targets[0], ast.Tuple) and isinstance(st.value, ast.Tuple) \
+                    and len(st.targets[0].elts) == len(st.value.elts):
+                pairs = {txt(t): txt(v) for t, v in zip(st.targets[0].elts, st.value.elts)}
+                cand_list, sub_list = pairs.get(cand_list, cand_list), pairs.get(sub_list, sub_list)
+        cand_adds = [c for c in calls(outer) if txt(c.func) == f"{cand_list}.append"]
+        sub_adds = [c for c in calls(outer) if txt(c.func) == f"{sub_list}.append"]
+        if len(cand_adds) == 1 and len(sub_adds) == 1:
+            elem = txt(cand_adds[0].args[0])
+            cand_facts = fact_texts(cfg, cand_adds[0])
+            sub_facts = fact_texts(cfg, sub_adds[0])
+            asserted = any(isinstance(a, ast.Assert) and txt(a.test) == f"isinstance({elem}, SubRegion)"
+                           and cfg.dominates(cfg.n(a), cfg.n(sub_adds[0])) for a in walk_local(outer))
+            ok = f"isinstance({elem}, CandidateCluster)" in cand_facts and txt(sub_adds[0].args[0]) == elem and \
+                (f"not isinstance({elem}, CandidateCluster)" in sub_facts) and \
+                (asserted or f"isinstance({elem}, SubRegion)" in sub_facts)
+            # both lists are re-created per section
+            fresh = [txt(t) for st in walk_local(outer) if isinstance(st, (ast.Assign, ast.AnnAssign)) and st.value is not None
+                     and txt(st.value) == "[]" for t in (st.targets if isinstance(st, ast.Assign) else [st.target])]
+            ok = ok and cand_list in fresh and sub_list in fresh
+            form = f"{cand_list} under {sorted(cand_facts)[:3]}; {sub_list} under {sorted(sub_facts)[:3]}"
+    ctx.ob("R06.4", REC, adds[0] if adds else func, qual, "partition by class", ok,
            "the areas of a section are split exhaustively into candidate clusters and subregions (else-arm asserts the "
-           "type), into lists that are fresh for each section", form="")
-    ok = "areas.extend(candidate_clusters)" in txt(func) and "areas.extend(subregions)" in txt(func)
+           "type), into lists that are fresh for each section", form=form)
+    swept_name = txt(swept)
+    sources = " ".join(txt(v) for v in bound_from(func, swept_name)) + " " + " ".join(
+        txt(c) for c in calls(func) if txt(c.func) in (f"{swept_name}.extend", f"{swept_name}.append"))
+    params = [a.arg for a in func.args.args[1:3]]
+    ok = all(p in sources for p in params) and len(params) == 2
     ctx.ob("R06.4", REC, func, qual, "all areas considered", ok,
-           "both candidate clusters and subregions enter the sweep", form="")
+           "both candidate clusters and subregions enter the sweep", form=sources[:160])
     _ = cfg
 
 
